@@ -8,7 +8,16 @@ Oracle: with the keyword at a schema position the real code raises FeatureNotImp
 from parse_element, from parse, and from generation — and the schema without it parses.
 Reference cycles (not finite schemas, so outside the Lean model): documents with self-, mutual,
 long and alias-only cycles through every position are written to a scratch directory and run
-through statham.__main__.main; anything but the not-implemented error is a failure."""
+through statham.__main__.main; anything but the not-implemented error is a failure.
+"The same schema without that part still parses": a base that the real code refuses as not implemented
+although it uses no unsupported keyword at a schema position is a failure; bases also spell the six
+keywords where statham reads a name or a literal (property / pattern / dependency / definitions names,
+required, keys and strings inside const / enum / default) and must parse whenever the same schema with
+a neutral spelling does.
+Histories (real code only): the dictionary handed to the parser may have been parsed before (parsing
+rewrites it in place) or be a shallow copy of one, taken before or after that parse. A keyword or a
+back edge introduced afterwards must be refused like in a fresh dictionary, and a dictionary that was
+refused parses once the keyword is taken out again."""
 import copy
 import json
 import os
@@ -62,6 +71,10 @@ def positions(schema, path=(), kind="root"):
                 yield from positions(s, path + (key, i), "tuple-items" if key == "items" else key)
 
 
+def uses_unsupported(schema):
+    return any(k in at(schema, path) for path, _ in positions(schema) for k in UNSUPPORTED)
+
+
 def at(schema, path):
     node = schema
     for p in path:
@@ -70,8 +83,13 @@ def at(schema, path):
 
 
 def classify(fn, doc):
+    return classify_shared(fn, copy.deepcopy(doc))
+
+
+def classify_shared(fn, doc):
+    """outcome of fn on this very object (parsing rewrites it in place)"""
     try:
-        fn(copy.deepcopy(doc))
+        fn(doc)
         return "ok"
     except FeatureNotImplementedError:
         return "notImplemented"
@@ -169,6 +187,10 @@ def check_pair(drv, base, path, kind, kw, value, out, stats, label):
         without = classify(fn, base)
         if without != "ok":
             stats["base-" + without] = stats.get("base-" + without, 0) + 1
+            if without == "notImplemented" and not uses_unsupported(base):
+                out.failures.append({"case": {"label": label, "schema": base, "route": name, "expect": "parses"},
+                                     "what": f"{name} refuses a schema as not implemented that uses no unsupported keyword at any schema position "
+                                             f"(it is what is left of the refused schema once {kw!r} is taken out at {list(path)})", "finding": None})
             continue
         got = classify(fn, mutated)
         stats[f"{name}-{got}"] = stats.get(f"{name}-{got}", 0) + 1
@@ -202,6 +224,239 @@ def lookalike_cases(rng):
         ({"title": "L", "type": "object", "properties": {"a": {"type": "object", "title": "In", "definitions": {"d": {kw: {}}}}}}, "nested definitions (not visited)"),
         ({"title": "L", "type": "object", "definitions": {"d": [{kw: {}}]}}, "non-schema definitions entry"),
     ]
+
+
+# ---- the keyword spellings where statham reads a name or a literal ("the same schema without that part still parses")
+
+LOOKALIKE_PLACES = ["property-name", "pattern-key", "dependency-key-array", "dependency-key-schema", "dependency-member", "required-name",
+                    "const-key", "enum-key", "default-key", "enum-string", "definitions-key", "nested-definitions-key"]
+ROUTES = {"parse": parse, "generate": generate, "main": generate_from_file, "parse_element": parse_element}
+
+
+def neutral(kw):
+    return "x" + kw.strip("$")
+
+
+def spell(node, place, name, child, nest, top):
+    """Use `name` in `node` at a place that is not a schema keyword position. False when the place does not apply to the node."""
+    def sub(key):
+        cur = node.get(key)
+        if not isinstance(cur, dict):
+            cur = node[key] = {}
+        return cur
+    lit = {name: copy.deepcopy(child)}
+    lit = [lit, name] if nest else lit
+    if place == "property-name":
+        sub("properties")[name] = copy.deepcopy(child)
+    elif place == "pattern-key":
+        sub("patternProperties")[name] = copy.deepcopy(child)
+    elif place == "dependency-key-array":
+        sub("dependencies")[name] = ["a"]
+    elif place == "dependency-key-schema":
+        sub("dependencies")[name] = copy.deepcopy(child)
+    elif place == "dependency-member":
+        deps = sub("dependencies")
+        if not isinstance(deps.get("a", []), list):
+            return False
+        deps["a"] = list(deps.get("a", [])) + [name]
+    elif place == "required-name":
+        if not isinstance(node.get("required", []), list):
+            return False
+        node["required"] = [r for r in node.get("required", []) if r != name] + [name]
+    elif place == "const-key":
+        node["const"] = lit
+    elif place == "default-key":
+        node["default"] = lit
+    elif place in ("enum-key", "enum-string"):
+        if not isinstance(node.get("enum", []), list):
+            return False
+        node["enum"] = list(node.get("enum", [])) + [lit if place == "enum-key" else name]
+    elif place == "definitions-key":
+        if not top:
+            return False
+        sub("definitions")[name] = copy.deepcopy(child)
+    elif place == "nested-definitions-key":
+        if top:
+            return False
+        sub("definitions")[name] = copy.deepcopy(child)
+    return True
+
+
+def check_lookalike(drv, sg, rng, base, path, place, kw, out, stats, label):
+    """`base` parses. The same with `kw` spelled at a non-keyword place must parse whenever the neutral spelling does; and it is a
+    supported base like any other: with a real unsupported keyword at a schema position it is refused, without it it parses."""
+    child = sg.leaf()
+    child = {k: v for k, v in child.items() if k not in UNSUPPORTED} if isinstance(child, dict) else {}
+    nest = rng.random() < 0.3
+    named, twin = copy.deepcopy(base), copy.deepcopy(base)
+    if not (spell(at(named, path), place, kw, child, nest, not path) and spell(at(twin, path), place, neutral(kw), child, nest, not path)):
+        stats["lookalike-place-not-applicable"] = stats.get("lookalike-place-not-applicable", 0) + 1
+        return
+    if uses_unsupported(named):
+        stats["lookalike-skipped-schema-position"] = stats.get("lookalike-skipped-schema-position", 0) + 1
+        return
+    case = {"label": label, "lookalike": place, "name": kw, "schema": named, "twin": twin, "path": list(path), "expect": "parses"}
+    out.note_case(case, True)
+    stats["lookalike-" + place] = stats.get("lookalike-" + place, 0) + 1
+    for name, fn in ROUTES.items():
+        neutral_outcome = classify(fn, twin)
+        if neutral_outcome != "ok":
+            stats[f"lookalike-twin-{neutral_outcome}"] = stats.get(f"lookalike-twin-{neutral_outcome}", 0) + 1
+            continue
+        got = classify(fn, named)
+        stats[f"lookalike-{name}-{got}"] = stats.get(f"lookalike-{name}-{got}", 0) + 1
+        if got != "ok":
+            how = "refused it with the not-implemented error" if got == "notImplemented" else f"ended with {got}"
+            out.failures.append({"case": {**case, "route": name}, "finding": None,
+                                 "what": f"{kw!r} as {place} at {list(path)} (a name or literal, not a schema keyword): {name} {how}, "
+                                         f"while the same schema spelled {neutral(kw)!r} parses"})
+    # the other half on this base: a real keyword at a schema position
+    pos = list(positions(named))
+    kpath, kind = rng.choice(pos)
+    real = rng.choice(list(UNSUPPORTED))
+    if real not in at(named, kpath):
+        check_pair(drv, named, kpath, kind, real, rng.choice(UNSUPPORTED[real]), out, stats, label + "+keyword")
+
+
+# ---- histories: the dictionary has been through the parser before
+
+SUBJECTS = ["same", "copy-after", "copy-before"]
+LINK_KINDS = ["properties", "patternProperties", "dependencies", "items", "tuple-items", "additionalProperties", "additionalItems",
+              "contains", "propertyNames", "anyOf", "oneOf", "allOf", "not"]
+
+
+def add_link(node, kind, target):
+    if kind in ("properties", "patternProperties", "dependencies"):
+        cur = node.get(kind)
+        if not isinstance(cur, dict):
+            cur = node[kind] = {}
+        cur["^next" if kind == "patternProperties" else "next"] = target
+    elif kind in ("anyOf", "oneOf", "allOf"):
+        cur = node.get(kind)
+        if not isinstance(cur, list):
+            cur = node[kind] = []
+        cur.append(target)
+    elif kind == "tuple-items":
+        node["items"] = [{}, target]
+    else:
+        node[kind] = target
+
+
+def history_subject(h, first_doc):
+    """Run the first parse of a history; returns (outcome of the first parse, the dictionary the history goes on with)."""
+    before = dict(first_doc) if h["subject"] == "copy-before" else None
+    first = classify_shared(ROUTES[h["first"]], first_doc)
+    subject = first_doc if h["subject"] == "same" else dict(first_doc) if h["subject"] == "copy-after" else before
+    return first, subject
+
+
+def last_parse(h, subject):
+    doc = subject if not h.get("host") else host(h["host"], subject, random.Random(h.get("host_seed", 0)))[0]
+    return classify_shared(ROUTES[h["route"]], doc)
+
+
+def play(h, part):
+    """A history on the real code, as data. kind "edited": parse base; take the subject (the same dictionary, or a shallow copy made after /
+    before that parse); with `part`, put the keyword (or an edge back to the subject's root; without `part`, the same edge to a fresh {})
+    at edit.path of the subject; parse the subject (or a fresh host holding it). kind "removed": parse base + keyword (refused); take the
+    subject; remove the keyword again (with `part`: leave it); parse. Returns the outcome of the last parse."""
+    edit = h["edit"]
+    doc = copy.deepcopy(h["base"])
+    if h["kind"] == "removed":
+        at(doc, edit["path"])[edit["keyword"]] = copy.deepcopy(edit["value"])
+    first, subject = history_subject(h, doc)
+    if first != ("ok" if h["kind"] == "edited" else "notImplemented"):
+        return "first:" + first
+    node = at(subject, edit["path"])
+    if h["kind"] == "removed":
+        if not part:
+            node.pop(edit["keyword"], None)
+    elif "link" in edit:
+        add_link(node, edit["link"], subject if part else {})
+    elif part:
+        node[edit["keyword"]] = copy.deepcopy(edit["value"])
+    return last_parse(h, subject)
+
+
+def history_fails(h):
+    """The oracle of a history. edited: the history without the part parses, so with it the last parse must be the refusal.
+    removed: the never-parsed base parses by the same route, so after the keyword is taken out again the last parse must succeed."""
+    if h["kind"] == "edited":
+        control, got = play(h, False), play(h, True)
+        return (control == "ok" and got != "notImplemented"), control, got
+    control = last_parse(h, copy.deepcopy(h["base"]))
+    still = play(h, True)
+    got = play(h, False)
+    return (control == "ok" and still == "notImplemented" and got != "ok"), control, got
+
+
+def make_history(rng, sg, kind, subject, host_kind):
+    base = sg.schema(rng.choice([1, 2, 3]))
+    if not isinstance(base, dict):
+        base = {}
+    base = copy.deepcopy(base)
+    base.setdefault("title", "Root")
+    for k in UNSUPPORTED:
+        base.pop(k, None)
+    host_kind = None if host_kind == "root" else host_kind
+    route = rng.choice(["parse", "generate"] if host_kind == "definitions" else ["parse_element", "parse", "generate"])
+    if not host_kind and route != "parse_element" and rng.random() < 0.4:
+        base["definitions"] = {f"d{j}": sg.schema(2) for j in range(rng.randint(1, 2))}
+    if uses_unsupported(base) or classify(parse, base) != "ok":
+        return None
+    h = {"kind": kind, "base": base, "first": rng.choice(["parse_element", "parse", "parse", "generate"]), "subject": subject, "route": route}
+    if host_kind:
+        h["host"], h["host_seed"] = host_kind, rng.randrange(1 << 30)
+    definitions_read = not host_kind and route != "parse_element"
+    kw = rng.choice(list(UNSUPPORTED))
+    if kind == "removed":
+        # the keyword is there from the start, at any position the last parse reads
+        pos = [(p, k) for p, k in positions(base) if definitions_read and h["first"] != "parse_element" or p[:1] != ("definitions",)]
+        path, where = rng.choice(pos)
+        h["edit"] = {"path": list(path), "position": where, "keyword": kw, "value": rng.choice(UNSUPPORTED[kw])}
+        return h
+    # edited: the places that are still dictionaries once the first parse has rewritten the subject
+    first, subject_doc = history_subject(h, copy.deepcopy(base))
+    if first != "ok":
+        return None
+    pos = [(p, k) for p, k in positions(subject_doc) if definitions_read or p[:1] != ("definitions",)]
+    below = [x for x in pos if x[0]]
+    path, where = rng.choice(below) if below and rng.random() < 0.6 else ((), "root")
+    if rng.random() < 0.25:
+        if path[:1] == ("definitions",):
+            # an edge from a member of `definitions` back to the root closes a cycle through the `definitions` container only: nothing the
+            # parser follows is recursive (the listed region C20-definitions-back-reference, observed on fresh documents in (d))
+            path, where = (), "root"
+        h["edit"] = {"path": list(path), "position": where, "link": rng.choice(LINK_KINDS)}
+    else:
+        h["edit"] = {"path": list(path), "position": where, "keyword": kw, "value": rng.choice(UNSUPPORTED[kw])}
+    return h
+
+
+def check_history(h, out, stats, label):
+    case = {"label": label, "history": h}
+    out.note_case(case, True)
+    edit = h["edit"]
+    what_edit = "back-edge" if "link" in edit else "keyword"
+    fails, control, got = history_fails(h)
+    for key in (f"history-{h['kind']}", f"history-subject-{h['subject']}", f"history-{h['kind']}-{what_edit}", f"history-host-{h.get('host', 'none')}",
+                f"history-first-{h['first']}", f"history-last-{h['route']}", f"history-at-{'root' if not edit['path'] else 'nested'}",
+                f"history-{h['kind']}-control-{control}", f"history-{h['kind']}-{what_edit}-{got}"):
+        stats[key] = stats.get(key, 0) + 1
+    if not fails:
+        return
+    whose = {"same": "the dictionary parsed before", "copy-after": "a shallow copy of a dictionary parsed before", "copy-before": "a shallow copy taken before its original was parsed"}[h["subject"]]
+    where = f"{list(edit['path'])}" + (f", held at a {h['host']} position of a fresh schema" if h.get("host") else "")
+    if h["kind"] == "removed":
+        what = (f"{whose} (first parse: refused for {edit['keyword']!r} at {where}): with the keyword taken out again {h['route']} ended with {got}, "
+                f"although the same schema parses when it has not been parsed before")
+    elif "link" in edit:
+        what = (f"{whose}, made recursive afterwards (an edge through {edit['link']} at {where} back to its root): {h['route']} ended with {got} "
+                f"instead of the not-implemented error")
+    else:
+        what = (f"{edit['keyword']!r} put at {where} of {whose}: {h['route']} "
+                + ("returned a result that ignores it" if got == "ok" else f"ended with {got}") + " instead of the not-implemented error")
+    out.failures.append({"case": case, "what": what, "finding": None})
 
 
 # ---- reference cycles
@@ -319,7 +574,12 @@ def run(ctx, scale=1.0):
                 "(b) random: generated supported schemas (depth <= 3) with a keyword inserted at a random position found by the harness's walker; "
                 "(c) look-alike non-schema places (10 shapes); each through parse_element, parse and generation; non-trivial = the keyword is below the "
                 "root; (d) reference documents: self cycles through 13 positions, random cycles of length 1-8 (reached / definitions-only / behind a "
-                "tail), alias-only cycles, acyclic controls, through statham.__main__.main; distinct by SHA-256")
+                "tail), alias-only cycles, acyclic controls, through statham.__main__.main; (e) the six keyword spellings at 12 kinds of name / literal "
+                "place (systematic in small hosts, random in generated schemas), each against the same schema with a neutral spelling through 4 routes, "
+                "then used as the base of a keyword-at-a-position pair; (f) histories on the real code: first parse (parse_element / parse / generate), "
+                "subject = the same dictionary | shallow copy after | shallow copy before, then a keyword or a back edge at a place that is still a "
+                "dictionary (or: first parse refused, keyword removed again), last parse directly or inside a fresh host at each position kind; "
+                "distinct by SHA-256")
     stats = {}
     drv = core.Driver()
     try:
@@ -372,11 +632,42 @@ def run(ctx, scale=1.0):
                         out.traces_validated += 1
                         if m != real:
                             out.disagreements.append({"what": f"look-alike place ({label}) via {op}", "impl": real, "model": m, "schema": doc})
+        # (e) the keyword spellings at places that are names or literals, in bases that are then used like any other base
+        quick = ctx["tier"] == "quick"
+        for rep in range(1 if quick else 6):
+            for place in LOOKALIKE_PLACES:
+                for kw in UNSUPPORTED:
+                    nested = place == "nested-definitions-key" or (place != "definitions-key" and rng.random() < 0.3)
+                    kind = rng.choice([k for k in POSITION_KINDS if k not in ("root", "definitions")]) if nested else "root"
+                    base, path = host(kind, {"title": "Inner", "type": rng.choice(["object", "object", "array", "string"])}, rng)
+                    check_lookalike(drv, sg, rng, base, path, place, kw, out, stats, f"lookalike-systematic-{place}")
+        for i in range(int((40 if quick else 2000) * scale)):
+            base = sg.schema(3)
+            if not isinstance(base, dict):
+                continue
+            base = copy.deepcopy(base)
+            base.setdefault("title", "Root")
+            if uses_unsupported(base) or classify(parse, base) != "ok":
+                continue
+            path, _ = rng.choice(list(positions(base)))
+            check_lookalike(drv, sg, rng, base, path, rng.choice(LOOKALIKE_PLACES), rng.choice(list(UNSUPPORTED)), out, stats, f"lookalike-random-{i}")
+        # (f) histories: dictionaries that have been parsed before, and shallow copies of them
+        plan = [("edited", subject, kind) for subject in SUBJECTS for kind in POSITION_KINDS]
+        plan += [(rng.choice(["edited", "edited", "removed"]), rng.choice(SUBJECTS), rng.choice(["root"] * 6 + POSITION_KINDS))
+                 for _ in range(int((120 if quick else 6000) * scale))]
+        for i, (hkind, subject, kind) in enumerate(plan):
+            h = make_history(rng, sg, hkind, subject, kind)
+            if h is None:
+                stats["history-base-skipped"] = stats.get("history-base-skipped", 0) + 1
+                continue
+            check_history(h, out, stats, f"history-{i}")
         # (d) reference cycles
         check_cycles(rng, int((40 if ctx["tier"] == "quick" else 1500) * scale), out, stats)
     finally:
         drv.close()
     out.stats = stats
+    # report the smallest failing input first
+    out.failures.sort(key=lambda f: len(json.dumps(f.get("case"), default=str)))
     return out
 
 
@@ -389,6 +680,13 @@ def search(ctx, reason):
 
 
 def _case_fails(case):
+    if "history" in case:
+        return history_fails(case["history"])[0]
+    if case.get("expect") == "parses":
+        fn = ROUTES[case.get("route", "parse")]
+        if "twin" in case:
+            return classify(fn, case["twin"]) == "ok" and classify(fn, case["schema"]) != "ok"
+        return classify(fn, case["schema"]) == "notImplemented" and not uses_unsupported(case["schema"])
     if "document" in case:
         out, tmp = Outcome(), tempfile.mkdtemp(prefix="statham-c20-")
         try:
@@ -398,8 +696,7 @@ def _case_fails(case):
             return run_main(path) != ("ok" if case.get("cycle", "").startswith("acyclic") else "notImplemented")
         finally:
             shutil.rmtree(tmp, ignore_errors=True)
-    fn = {"parse": parse, "generate": generate, "parse_element": parse_element}[case.get("route", "parse")]
-    return classify(fn, case["schema"]) != "notImplemented"
+    return classify(ROUTES[case.get("route", "parse")], case["schema"]) != "notImplemented"
 
 
 def replay_finding(finding):
